@@ -92,6 +92,52 @@ def e_roundtrip(ctx, shape, lim_keys=("vi", "io"), reports=True):
         snap.compare(ctx, snap.frame_by_name(sysobj.phases()), snap.frame_by_name(sys2.phases()), "phases()-equal")
 
 
+def h_roundtrip_after_history(ctx, base, nsym=0):
+    """save()/from_file() after an EDIT HISTORY (deletions with re-linking, renames, index re-use, phases), optionally followed by one
+    solver-chosen accepted call: every report of the reloaded system equals that of the saved one, rows matched by name."""
+    import json
+    from sysloss.system import System
+    from .. import hist
+    from ..core import Skip
+    from .c14 import _try, ALL_OPS, _opinfo
+
+    sysobj, m = hist.replay_base(hist.BASES[base])
+    calls = []
+    for k in range(nsym):
+        op = hist.symbolic_call(ctx, m, "c%d" % k, ALL_OPS)
+        if _try(sysobj, op) is not None:
+            raise Skip("rejected call")
+        try:
+            m.apply(op)
+        except Exception:  # noqa: BLE001
+            raise Skip("accepted call outside the documented rules: C14's subject")
+        calls.append(_opinfo(op))
+    if hist.well_formed(sysobj):
+        raise Skip("ill-formed: C14's subject")
+    tmp = tempfile.NamedTemporaryFile(suffix=".json", delete=False)
+    tmp.close()
+    inf = {"base": base, "calls": calls}
+    try:
+        try:
+            rep1 = hist.reports(sysobj)
+            sysobj.save(tmp.name)
+            sys2 = System.from_file(tmp.name)
+            rep2 = hist.reports(sys2)
+        except Exception as e:  # noqa: BLE001
+            ctx.check("save-and-reload-succeed", cond(False), key="roundtrip-fails/%s" % type(e).__name__, info={**inf, "error": repr(e)[:200]})
+            return
+    finally:
+        os.unlink(tmp.name)
+    ctx.cover("reloaded")
+    for name in ("solve", "rail_rep", "params", "limits", "phases", "tree"):
+        snap.compare(ctx, rep1[name], rep2[name], "%s-equal-after-reload" % name, key="reload-differs/%s" % name, info=inf)
+    a, b = rep1["save"], rep2["save"]
+    for d in (a, b):
+        for reg in ("phase_conf", "groups", "rails"):
+            d["system"][reg] = dict(sorted(d["system"][reg].items(), key=lambda kv: str(kv[0])))
+    snap.compare(ctx, a, b, "save-document-equal-after-reload", key="reload-differs/save", info=inf)
+
+
 def e_version(ctx):
     """A file written by a newer sysLoss version is refused with ValueError; same or older is accepted."""
     import sysloss
@@ -161,6 +207,13 @@ def instances(tier):
             cat["kind-" + kind] = S(N("S", "Source"), N("X", kind, "S"), N("L", "ILoad", "X", only=()))
     cat["kind-PMux"] = S(N("S", "Source", only=()), N("S2", "Source"), N("X", "PMux", ["S", "S2"], rs_list=True), N("L", "ILoad", "X", only=()))
     cat["kind-PMux-scalar-rs"] = S(N("S", "Source", only=()), N("X", "PMux", ["S"]), N("L", "PLoad", "X", loss=True))
+    from .. import hist
+
+    for b in hist.BASES:
+        out.append(Instance("C12", "c12:h_roundtrip_after_history", dict(base=b, nsym=0), name="H/%s/base" % b, cover=["reloaded"], weight=1))
+        if tier == "thorough" or b in ("mux-below", "relinked-mux-input", "after-rename", "phased", "by-rail"):
+            out.append(Instance("C12", "c12:h_roundtrip_after_history", dict(base=b, nsym=1), name="H/%s/+1" % b, cover=["reloaded"], max_paths=30000,
+                                weight=10, time_limit=2500))
     for sid, sh in cat.items():
         big = len(sh["nodes"]) > 4
         out.append(Instance("C12", "c12:e_roundtrip", dict(shape=sh, lim_keys=["vi", "io", "pl"]), name="E/" + sid, uf=True,
